@@ -683,15 +683,15 @@ type cntRW struct{ o *cntObj }
 type cntLister struct{ o *cntObj }
 
 func (x cntReader) ReadAt(p []byte, off int64) (int, error)  { return x.o.readAt(p, off) }
-func (x cntReader) Close() error                              { return x.o.close() }
-func (x cntReader) TransferError(err error)                   { x.o.transferError(err) }
+func (x cntReader) Close() error                             { return x.o.close() }
+func (x cntReader) TransferError(err error)                  { x.o.transferError(err) }
 func (x cntWriter) WriteAt(p []byte, off int64) (int, error) { return x.o.writeAt(p, off) }
-func (x cntWriter) Close() error                              { return x.o.close() }
-func (x cntWriter) TransferError(err error)                   { x.o.transferError(err) }
+func (x cntWriter) Close() error                             { return x.o.close() }
+func (x cntWriter) TransferError(err error)                  { x.o.transferError(err) }
 func (x cntRW) ReadAt(p []byte, off int64) (int, error)      { return x.o.readAt(p, off) }
 func (x cntRW) WriteAt(p []byte, off int64) (int, error)     { return x.o.writeAt(p, off) }
-func (x cntRW) Close() error                                  { return x.o.close() }
-func (x cntRW) TransferError(err error)                       { x.o.transferError(err) }
+func (x cntRW) Close() error                                 { return x.o.close() }
+func (x cntRW) TransferError(err error)                      { x.o.transferError(err) }
 func (x cntLister) ListAt(l []os.FileInfo, off int64) (int, error) {
 	return x.o.listAt(l, off)
 }
